@@ -380,11 +380,12 @@ Inductive op :=
 | OClose.
 
 (* one result per operation: status and (for reads) the bytes *)
-Definition step (fi : Z) (s : st) (p : op) : option (Z * list Z * st) :=
+(* status: None = NO_ERROR, Some e = the error code left in *error_return *)
+Definition step (fi : Z) (s : st) (p : op) : option (option Z * list Z * st) :=
   let fin {A} (r : res A) (f : A -> list Z) :=
     match r with
-    | Done a s' => Some (NO_ERROR, f a, s')
-    | Fail e s' => Some (e, [], s')
+    | Done a s' => Some (None, f a, s')
+    | Fail e s' => Some (Some e, [], s')
     | OutOfFuel => None
     end in
   match p with
@@ -396,7 +397,7 @@ Definition step (fi : Z) (s : st) (p : op) : option (Z * list Z * st) :=
   end.
 
 (* per operation: status, bytes read, and the ghost flag "a read() has failed hard so far" *)
-Fixpoint run (fi : Z) (s : st) (ops : list op) : option (list (Z * list Z * bool) * st) :=
+Fixpoint run (fi : Z) (s : st) (ops : list op) : option (list (option Z * list Z * bool) * st) :=
   match ops with
   | [] => Some ([], s)
   | p :: rest =>
@@ -413,8 +414,9 @@ Fixpoint run (fi : Z) (s : st) (ops : list op) : option (list (Z * list Z * bool
 Definition mk_state (d : list Z) (rs : list resp) : st :=
   mkSt (mkOs d 0 rs 0 [] false) init_cache true.
 
-Definition all_ok (l : list (Z * list Z * bool)) : bool := forallb (fun x => fst (fst x) =? NO_ERROR) l.
-Definition no_read_error (l : list (Z * list Z * bool)) : bool := forallb (fun x => negb (snd x)) l.
+Definition all_ok (l : list (option Z * list Z * bool)) : bool :=
+  forallb (fun x => match fst (fst x) with None => true | Some _ => false end) l.
+Definition no_read_error (l : list (option Z * list Z * bool)) : bool := forallb (fun x => negb (snd x)) l.
 
 (* the stream-only specification of ADFI_write: bytes accepted in order, and whether a hard error came first *)
 Fixpoint accepted (rs : list resp) (left : nat) : nat * bool :=
